@@ -675,6 +675,20 @@ example :
   history_native_bits 1 4 2 (by decide) [0xA5] [.fetch 1 false, .whole, .fetch 7 false, .replace [0x5A]] batchSkel (Or.inr rfl) 0
     (by decide) (by decide)
 
+
+/-- **The file behind a lazily read image is open for every read and closed again after every call** - for ANY sequence
+of calls (single fetches, batch reads of any length, whether the batch reads go through `get_raw_frame` - a nested `with
+reader:` - or straight to the reader): every read finds the file open, and between two calls the reader is back in its rest
+state (nothing entered; the file closed iff the reader was given a path and owns the file).  Over the regenerated
+`__enter__` / `__exit__` (T11g), by induction over the calls.  (Tie C: images opened from a path are read in every order,
+after refused requests and in batches.) -/
+theorem reader_reopens_for_every_call (shouldClose : Bool) (calls : List LazyCall) :
+    runCalls shouldClose calls = (restState shouldClose, List.replicate (calls.map LazyCall.reads).sum true) :=
+  runCalls_spec shouldClose calls
+
+/-- non-vacuity: a path reader - single fetch, batch of three through get_raw_frame, batch of two straight from the reader -/
+example : runCalls true [.single, .batch 3 true, .batch 2 false] = (⟨0, false⟩, [true, true, true, true, true, true]) := by decide
+
 /-! ## Encapsulated pixel data: offset tables and the fragment walk of the lazy reader -/
 
 /-- The table `_build_bot` constructs for one-fragment-per-frame streams (RLE, …) lists the byte
